@@ -1,4 +1,5 @@
 """C17 — removing / re-creating loggers (DESIGN §4 C17)."""
+import re
 from qlib import (AnalysisBroken, strip, isnode, walk, is_call, norm_cmp, var_ref, is_null, const_val, short, call_obj,
                   expr_key, field_name, is_this_field, atomic_op, is_release, is_acquire)
 from rules.common import (core_and_neg, tnode, other, cpos, npos, branches_on_call, in_subtree, need_some, loops_enclosing)
@@ -71,6 +72,7 @@ def run(ctx):
         r4(ctx, facts, cfg)
         r5(ctx, facts, cfg)
         r6(ctx, facts, cfg)
+        r7_lookup(ctx, facts, cfg)
         # the predicate a logger is erased on (R3): the backend's 'everything is drained' check, and what the unbounded queue calls empty
         from rules import c07, c02
         c07.r1d(ctx, facts, cfg, rule="C17.R3f")
@@ -123,6 +125,21 @@ def r1(ctx, facts, cfg):
                    "%s touches %s without acquiring %s itself: it must be a private helper whose every call site holds the lock "
                    "(private: %s, call sites: %d%s)" % (m.base, fld, lockf, private, len(sites), (", unlocked: " + ", ".join(where)) if where else ""),
                    loc=nodes[0]["loc"], fn=m)
+    # R1d: an explicit lock() is released on every path out of the function (a guard object does that by itself)
+    nl = 0
+    for (cls, fld, lockf) in GUARDED:
+        for m in [f for f in facts.fns if f.config == cfg and f.cls == cls]:
+            g = m.g
+            locks = npos(m, [n for n in m.walk() if is_call(n, r"Spinlock::lock$") and is_this_field(call_obj(n), lockf)])
+            unlocks = npos(m, [n for n in m.walk() if is_call(n, r"Spinlock::unlock$") and is_this_field(call_obj(n), lockf)])
+            if not locks:
+                continue
+            nl += 1
+            ok = bool(unlocks) and not g.exists_path(locks, [g.exit_node], avoid_nodes=unlocks)
+            ctx.ob("C17.R1d", "%s::%s:%s@released" % (short(cls).split("::")[-1], m.base, lockf), ok,
+                   "every path from %s.lock() to the end of the function passes %s.unlock() (a registry left locked blocks every later "
+                   "create / get / remove and the backend's reload)" % (lockf, lockf), fn=m)
+    ctx.floor("C17.R1d", "explicit lock() sites in the guarded classes", nl, 1)
     ctx.floor("C17.R1", "accesses to guarded registry fields", total, 19)
     # find-then-insert is one critical section
     for (short_name, find_pat, ins_pat, lockf) in (
@@ -356,6 +373,120 @@ def r5(ctx, facts, cfg):
         not cg.exists_path([cg.entry_node], [cg.exit_node], avoid_nodes=fc, avoid_edges=nb)
     ctx.ob("C17.R5e", "FileSink::close_file:fclose-and-forget", ok,
            "an open file is closed with fclose and the handle forgotten on every path (only 'no file open' skips it)", fn=c)
+
+
+def r7_lookup(ctx, facts, cfg):
+    """R7: by-name lookup and create-or-get: what 'found' means, and that exactly the not-found outcome creates"""
+    for cls, fnd, field, keyf in (("quill::detail::SinkManager", "_find_sink", "_sinks", "sink_id"), ("quill::detail::LoggerManager", "_find_logger", "_loggers", "get_logger_name")):
+        f = facts.need(cls + "::" + fnd, cfg)[0]
+        g = f.g
+        tgt = f.rec["params"][0]["did"]
+        inits = f.var_inits()
+        itv = [vid for vid, i in inits.items() if isnode(i) and any(is_call(x, r"^std::(lower_bound|upper_bound|find_if|find|equal_range)\b") for x in walk(i))]
+        if len(itv) != 1:
+            raise AnalysisBroken("%s::%s: search result variable not identified" % (cls, fnd))
+        itv = itv[0]
+        inr, same = [], []
+        for bid, b in g.blocks.items():
+            c = g.term_cond(bid)
+            if c is None:
+                continue
+            core, neg = core_and_neg(c)
+            cs_ = strip(core, casts=True)
+            if isnode(cs_) and is_call(cs_, r"operator(==|!=)") and any(is_call(x, r"(::c?end$|^std::c?end)") and any(is_this_field(y, field) for y in walk(x)) for x in walk(cs_)):
+                lab = "F" if "operator==" in cs_["callee"] else "T"   # label of 'in range'
+                inr.append((bid, other(lab) if neg else lab))
+            elif isnode(cs_) and ((is_call(cs_, r"operator(==|!=)") or (cs_["k"] == "BinaryOperator" and cs_["op"] in ("==", "!="))) and
+                                  any(x["k"] == "DeclRefExpr" and x.get("did") == tgt for x in walk(cs_)) and
+                                  any((x["k"] == "MemberExpr" and x.get("mname") == keyf) or is_call(x, r"::%s$" % keyf) for x in walk(cs_))):
+                eq = ("operator==" in cs_.get("callee", "")) or cs_.get("op") == "=="
+                lab = "T" if eq else "F"   # label of 'same name'
+                same.append((bid, other(lab) if neg else lab))
+        # dereferences of the search result outside the range test
+        deref = [x for x in f.walk() if ((x["k"] == "CXXOperatorCallExpr" and re.search(r"operator(->|\*)$", x.get("callee") or "") and any(var_ref(a) == itv for a in x["args"])))
+                 and not any(in_subtree(x, g.term_cond(b)) for (b, _l) in inr)]
+        dp = sorted(set(p_ for x in deref for p_ in (g.positions(x) or [])))
+        # what is handed back as 'found': every non-null result lies on 'in range' and 'same name'
+        hits = []
+        for r in g.return_nodes():
+            v = g.node_ast(r).get("val")
+            hits.append(r)
+        lock_or_get = npos(f, [c for c in f.calls(r"(weak_ptr<.*>::lock$|__weak_ptr<.*>::lock$|unique_ptr<.*>::get$)")
+                               if not any(in_subtree(c, g.term_cond(b)) for (b, _l) in same)])
+        ok = bool(inr) and bool(same) and bool(dp) and not g.exists_path([g.entry_node], dp, avoid_edges=inr) and \
+            bool(lock_or_get) and not g.exists_path([g.entry_node], lock_or_get, avoid_edges=same)
+        # the pointer that is returned on the 'found' outcome comes from the search result
+        ctx.ob("C17.R7a", "%s::%s:found-means-in-range-and-same-name" % (cls.split("::")[-1], fnd), ok,
+               "the search result is dereferenced only on its 'not the end' outcome, and an entry is handed back only on the 'same name' "
+               "outcome of the comparison with the requested name (in-range tests: %d, name tests: %d)" % (len(inr), len(same)), fn=f)
+    for cls, cg_, fnd, ins, maker in (("quill::detail::SinkManager", "create_or_get_sink", r"SinkManager::_find_sink$", r"SinkManager::_insert_sink$", r"^std::make_shared<"),
+                                      ("quill::detail::LoggerManager", "create_or_get_logger", r"LoggerManager::_find_logger$", r"LoggerManager::_insert_logger$", None)):
+        n = 0
+        for f in facts.fn(cls + "::" + cg_, cfg):
+            ip = cpos(f, ins)
+            if not ip:
+                continue
+            n += 1
+            g = f.g
+            inits = f.var_inits()
+            fc = f.calls(fnd)
+            rv = [vid for vid, i in inits.items() if isnode(i) and any(in_subtree(c, i) for c in fc)]
+            if not rv:
+                raise AnalysisBroken("%s::%s: lookup result variable not identified" % (cls, cg_))
+            nf = []
+            for bid, b in g.blocks.items():
+                c = g.term_cond(bid)
+                if c is None:
+                    continue
+                core, neg = core_and_neg(c)
+                cs_ = strip(core, casts=True)
+                if var_ref(cs_) == rv[0] or (is_call(cs_, r"shared_ptr<.*>::operator bool$|__shared_ptr<.*>::operator bool$") and var_ref(call_obj(cs_)) == rv[0]):
+                    nf.append((bid, "T" if neg else "F"))  # label of 'not found'
+            mk = npos(f, [x for x in f.walk() if x["k"] == "CXXNewExpr" or (maker and is_call(x, maker))])
+            nf = [(b, l) for (b, l) in nf if g.exists_path([tnode(g, b)], mk)]  # the test that decides the creation (not a re-check after it)
+            rets = [r for r in g.return_nodes()]
+            ok = bool(nf) and bool(mk) and not g.exists_path([g.entry_node], mk + ip, avoid_edges=nf) and \
+                all(not g.exists_path([tnode(g, b)], rets, avoid_nodes=ip, avoid_edges=[(b, other(l))]) for (b, l) in nf) and \
+                all(not g.exists_path([tnode(g, b)], rets, avoid_nodes=mk, avoid_edges=[(b, other(l))]) for (b, l) in nf)
+            ctx.ob("C17.R7b", "%s:creates-iff-not-found" % f.short.replace("quill::detail::", "")[:100], ok,
+                   "an object is created and inserted exactly on the 'not found' outcome of the lookup, on every path from there (on "
+                   "'found' the existing one is returned: create-or-get is idempotent)", fn=f)
+        ctx.floor("C17.R7b", cls + "::" + cg_, n, 1)
+    for cls, ins, field in (("quill::detail::SinkManager", "_insert_sink", "_sinks"), ("quill::detail::LoggerManager", "_insert_logger", "_loggers")):
+        f = facts.need(cls + "::" + ins, cfg)[0]
+        ic = npos(f, [c for c in f.calls(r"std::vector<.*>::(insert|emplace)$") if is_this_field(call_obj(c), field)])
+        ctx.ob("C17.R7c", "%s::%s:inserts" % (cls.split("::")[-1], ins), bool(ic) and not f.g.exists_path([f.g.entry_node], [f.g.exit_node], avoid_nodes=ic),
+               "the new entry is inserted into the registry on every path", fn=f)
+    # walking the registries: the erase-or-advance loops visit every element
+    for cls, meth, field in (("quill::detail::SinkManager", "cleanup_unused_sinks", "_sinks"), ("quill::detail::LoggerManager", "cleanup_invalidated_loggers", "_loggers")):
+        for f in facts.need(cls + "::" + meth, cfg)[:2]:
+            g = f.g
+            loops = [n for n in f.walk() if n["k"] == "ForStmt"]
+            if not loops:
+                raise AnalysisBroken("%s::%s: erase-or-advance loop not found" % (cls, meth))
+            lp = loops[0]
+            itv = lp["init"]["decls"][0]["did"] if isnode(lp.get("init")) and lp["init"].get("decls") else None
+            cnd = strip(lp.get("cond"))
+            whole = isnode(cnd) and is_call(cnd, r"operator!=") and any(is_call(x, r"std::vector<.*>::end$") and is_this_field(call_obj(x), field) for x in walk(cnd)) and \
+                any(is_call(x, r"std::vector<.*>::begin$") and is_this_field(call_obj(x), field) for x in walk(lp.get("init") or {}))
+            adv = npos(f, [x for x in walk(lp["body"]) if (is_call(x, r"operator\+\+$") and any(var_ref(a) == itv for a in x["args"])) or
+                           (_is_assign_from_erase(x, itv, field))])
+            cb = [bid for bid, b in g.blocks.items() if g.term_cond(bid) is not None and in_subtree(g.term_cond(bid), lp["cond"])]
+            progress = bool(cb) and bool(adv) and not g.exists_path([y for (y, lab) in g.succ.get(tnode(g, cb[0]), ()) if lab == "T"], [tnode(g, cb[0])], avoid_nodes=adv)
+            early = [x for x in walk(lp["body"]) if x["k"] in ("BreakStmt", "ReturnStmt", "GotoStmt")]
+            ctx.ob("C17.R7d", "%s::%s:walks-the-whole-registry" % (cls.split("::")[-1], meth), whole and progress and not early,
+                   "the loop runs from begin() until end(), every iteration either advances the iterator or continues from erase()'s "
+                   "result, and none leaves early (whole: %s, progress on every path: %s)" % (whole, progress), fn=f)
+
+
+def _is_assign_from_erase(x, itv, field):
+    if not isnode(x):
+        return False
+    if x["k"] == "CXXOperatorCallExpr" and short(x.get("callee") or "").endswith("operator=") and len(x.get("args") or []) == 2 and var_ref(x["args"][0]) == itv:
+        return any(is_call(y, r"std::vector<.*>::erase$") and is_this_field(call_obj(y), field) for y in walk(x["args"][1]))
+    if x["k"] == "BinaryOperator" and x["op"] == "=" and var_ref(x["lhs"]) == itv:
+        return any(is_call(y, r"std::vector<.*>::erase$") and is_this_field(call_obj(y), field) for y in walk(x["rhs"]))
+    return False
 
 
 def _rel_op(callee):
